@@ -22,6 +22,7 @@ package uncurry
 import (
 	"fmt"
 	"go/types"
+	"strconv"
 	"strings"
 
 	"github.com/awalterschulze/goderive/derive"
@@ -71,9 +72,33 @@ func (g *gen) Add(name string, typs []types.Type) (string, error) {
 		return "", fmt.Errorf("%s, returns a variadic function, which is not supported", name)
 	}
 	retSig = derive.RenameBlankIdentifierWith(retSig, "innerParam_")
+	retSig = renameInner(sig.Params(), retSig)
 	newTup := types.NewTuple(types.NewVar(retVar.Pos(), retVar.Pkg(), retVar.Name(), retSig))
 	sig = types.NewSignature(sig.Recv(), sig.Params(), newTup, sig.Variadic())
 	return g.SetFuncName(name, derive.RenameBlankIdentifier(sig))
+}
+
+// renameInner renames the parameters of the inner function that have the same name as a parameter of the outer function,
+// since they become parameters of one function.
+func renameInner(outer *types.Tuple, inner *types.Signature) *types.Signature {
+	names := make(map[string]struct{}, outer.Len())
+	for i := 0; i < outer.Len(); i++ {
+		names[outer.At(i).Name()] = struct{}{}
+	}
+	params := inner.Params()
+	vars := make([]*types.Var, params.Len())
+	renamed := false
+	for i := range vars {
+		vars[i] = params.At(i)
+		if _, ok := names[vars[i].Name()]; ok && vars[i].Name() != "" {
+			vars[i] = types.NewVar(vars[i].Pos(), vars[i].Pkg(), "innerParam_"+strconv.Itoa(i), vars[i].Type())
+			renamed = true
+		}
+	}
+	if !renamed {
+		return inner
+	}
+	return types.NewSignature(inner.Recv(), types.NewTuple(vars...), inner.Results(), inner.Variadic())
 }
 
 func (g *gen) Generate(typs []types.Type) error {
